@@ -13,6 +13,16 @@ def run(ctx):
     if rc != 0 or not rows:
         ctx.problem("correspondence", "go harness C05", out[-1500:])
         return
+    # the codec from several goroutines at once (processor, gRPC requests, p2p): every result against a single-goroutine reference
+    rcc, outc, tracec = core.harness_pkg(ctx, "vaa", "^TestVerifC05Conc$", race=(ctx.tier == "thorough"))
+    crows = [r for r in core.read_jsonl(tracec) if r.get("k") == "c05conc"]
+    if rcc != 0 or not crows:
+        ctx.problem("correspondence", "go harness C05 (concurrent callers)", outc[-1500:])
+    for r in crows:
+        ctx.cov["concurrent_codec_cycles"] = r.get("cycles")
+        for m in r.get("mon", [])[:2]:
+            ctx.problem("monitor", m, "observed on the implementation (%d goroutines, %d VAAs)" % (r.get("workers", 0), r.get("vaas", 0)), concrete=True,
+                        replay={"concurrent_callers": r.get("workers"), "cycles": r.get("cycles"), "monitor": m}, key="conc:" + " ".join(m.split(" ")[4:7]))
     dec = [r for r in rows if r["k"] == "dec"]
     ctx.evaluations = len(rows)
     ctx.distinct = len({r["in"] for r in dec if r["code"] != 1})
